@@ -1,10 +1,13 @@
 package roverif
 
 import (
+	"context"
 	"fmt"
 	"time"
 
 	"github.com/samber/ro"
+
+	"rosim/simcontext"
 )
 
 func genAttempt(g *Gen, base int, ending string, timed bool) []Step {
@@ -53,6 +56,10 @@ func init() {
 				sc.SetInt("max", g.Range(0, 3))
 				sc.SetInt("reset", g.Intn(2))
 				sc.SetInt("delay", g.PickInt(0, 0, 1, 2))
+				if g.Bool(0.3) {
+					sc.SetInt("delay", 0)
+					sc.SetInt("cancel", g.Range(1, n)) // the context is cancelled inside attempt #cancel (1-based)
+				}
 				// the script of the last attempt is replayed for further attempts: make it end the loop
 				att[len(att)-1] = genAttempt(g, 10*n, "C", timed)
 			case "RepeatWith":
@@ -105,10 +112,23 @@ func c15Model(sc *Scn) (out []N, attempts int) {
 	case "Retry":
 		max, reset := sc.Int("max", 0), sc.Int("reset", 0) == 1
 		retries := 0
+		cancelAt := sc.Int("cancel", 0)
 		for i := 0; ; i++ {
 			attempts++
 			v, t := vals(get(i))
 			out = append(out, v...)
+			if reset && len(v) > 0 {
+				retries = 0
+			}
+			if cancelAt > 0 && i == cancelAt-1 && t.K == 'E' {
+				// the context was cancelled during this attempt: Retry must not start another one and
+				// ends with the context's error (a non-script error) — unless the retries were spent anyway
+				retries++
+				if max != 0 && retries > max {
+					return append(out, t), attempts
+				}
+				return append(out, N{K: 'E', V: -1}), attempts
+			}
 			if reset && len(v) > 0 {
 				retries = 0
 			}
@@ -253,7 +273,17 @@ func runC15(e *Env) {
 		}
 	}
 	rec := e.NewRec("o")
-	h := e.Subscribe(o, rec.Observer(), nil)
+	var ctx context.Context
+	if k := sc.Int("cancel", 0); k > 0 && sc.Sub == "Retry" {
+		c, cancel := simcontext.WithCancel(context.Background())
+		ctx = c
+		srcs[0].SubHook = func(n int) {
+			if n == k-1 {
+				cancel()
+			}
+		}
+	}
+	h := e.Subscribe(o, rec.Observer(), ctx)
 	e.SettleFor(400 * Unit)
 	if e.K.Capped() {
 		e.Violate("C15", "does-not-terminate", fmt.Sprintf("%s: the loop never became quiescent (attempts so far %d, trace %s)", sc.Sub, srcs[0].Subs, rec.Trace()))
